@@ -29,13 +29,17 @@ def chunks(tier):
     """small, always-completed parts first (the pool takes chunks in this order), budget-limited edit sweep last"""
     out = []
     for name in DEFINE_PROGS:
-        out.append(dict(part="define", prog=name))
+        # the macro values: numbers only / identifiers only (always analysed to a verdict) / any two characters (thorough)
+        for vclass in (("num", "ident") if tier == "quick" else ("num", "ident", "any")):
+            out.append(dict(part="define", prog=name, vclass=vclass))
     # the -R value as the command line delivers it (whatever shape argparse gives it): an unknown word of 1..14 letters
     for n in ((1, 10, 11, 12, 13) if tier == "quick" else range(1, 15)):
         out.append(dict(part="cliR", n=n))
     for kind in ("cfile", "hfile"):
         for n in ((0, 1, 2) if tier == "quick" else (0, 1, 2, 3)):
             out.append(dict(part="cli", kind=kind, n=n))
+    for fc in sorted(FMT_FILES):
+        out.append(dict(part="cliF", fclass=fc))
     progs = ["fn.c", "gl.c"] if tier == "quick" else list(E.BASE_SRC)
     for name in progs:
         nb = len(E.boundaries(name))
@@ -86,6 +90,8 @@ def run_chunk(chunk, ctx):
         return run_cli(chunk, ctx)
     if part == "cliR":
         return run_cli_r(chunk, ctx)
+    if part == "cliF":
+        return run_cli_fmt(chunk, ctx)
     ex = Explorer()
     core.set_run(ex)
     col = Collector(HNAME, seed=ctx["seed"], sample_rate=ctx.get("sample_rate", 0.1))
@@ -106,12 +112,13 @@ def run_chunk(chunk, ctx):
                     ex.solver.add(v.domain_constraint())
                     items.append(v)
             elif tok == "{V}":
+                vclass = chunk.get("vclass", "any")
                 k += 1
-                v = Var(f"d{k}", map(ord, "123456789ABCxyz"))
+                v = Var(f"d{k}", map(ord, {"num": "123456789", "ident": "ABCxyz"}.get(vclass, "123456789ABCxyz")))
                 ex.solver.add(v.domain_constraint())
                 items.append(v)
                 k += 1
-                v2 = Var(f"d{k}", map(ord, "0123456789ABCxyz"))
+                v2 = Var(f"d{k}", map(ord, {"num": "0123456789", "ident": "0123456789ABCxyz"}.get(vclass, "0123456789ABCxyz")))
                 ex.solver.add(v2.domain_constraint())
                 items.append(v2)
             else:
@@ -275,6 +282,119 @@ def run_cli(chunk, ctx):
     return res
 
 
+FMT_FILES = {
+    "clean": "int\tmain(void)\n{\n\treturn (0);\n}\n",
+    "notice_only": "int\tg_count;\n\nint\tmain(void)\n{\n\treturn (g_count);\n}\n",
+    "errors": "int main()\n{\n  return 0;\n}\n",
+    "notice_and_error": "int\tg_count;\n\nint\tmain(void)\n{\n\treturn g_count;\n}\n",
+}
+FMT_OPTS = [o + f for o in ([], ["--no-colors"], ["-o"], ["-d"], ["-o", "--no-colors"], ["-R", "Whatever"])
+            for f in ([], ["-f", "humanized"], ["-f", "json"])]
+
+
+def parse_any(out):
+    """(verdict, sorted diagnostics) per file from humanized or JSON output"""
+    import json as _json
+    files = []
+    for l in out.splitlines():
+        l = l.strip()
+        if l.startswith("{") and '"files"' in l:
+            try:
+                data = _json.loads(l)
+            except ValueError:
+                return [("unparsable-json",)]
+            for f in data["files"]:
+                files.append((os.path.basename(f["path"]), "OK!" if f["status"] == "OK" else "Error!",
+                              sorted((e["level"], e["name"], e["highlights"][0]["lineno"], e["highlights"][0]["column"]) for e in f["errors"])))
+            return files
+    got = parse_cli(out)
+    cur = None
+    for g in got:
+        if len(g) == 2:
+            cur = (os.path.basename(g[0]), g[1], [])
+            files.append(cur)
+        elif cur is not None:
+            cur[2].append((g[0], g[1], int(g[2]), int(g[3])))
+    return [(a, b, sorted(c)) for a, b, c in files]
+
+
+def fmt_run_native(fclass, opts):
+    import tempfile
+    import shutil
+    import subprocess
+    tmp = tempfile.mkdtemp(prefix="nverif-")
+    try:
+        fname = "fmt.c"
+        open(os.path.join(tmp, fname), "w").write("".join(l.default_text() + "\n" for l in F.header_lines(fname)) + "\n" + FMT_FILES[fclass])
+        r = subprocess.run(["/venv/bin/python", "-m", "norminette"] + opts + [fname], cwd=tmp, capture_output=True, text=True, timeout=60,
+                           env=dict(os.environ, PYTHONPATH=__import__("symx").REPO, PYTHONDONTWRITEBYTECODE="1"))
+        return parse_any(r.stdout), r.returncode
+    finally:
+        shutil.rmtree(tmp, ignore_errors=True)
+
+
+def run_cli_fmt(chunk, ctx):
+    """real main() on a file of each verdict class under a solver-chosen option set (colours, -o, -d, -R word, -f humanized |
+    json): verdict, diagnostics and exit status equal those of the plain run"""
+    import norminette.__main__ as M
+    import tempfile
+    import shutil
+    fclass = chunk["fclass"]
+    ex = Explorer()
+    core.set_run(ex)
+    col = Collector(HNAME, seed=ctx["seed"], sample_rate=1.0, max_witness=len(FMT_OPTS))
+    tmp = tempfile.mkdtemp(prefix="nverif-")
+    fname = "fmt.c"
+    open(os.path.join(tmp, fname), "w").write("".join(l.default_text() + "\n" for l in F.header_lines(fname)) + "\n" + FMT_FILES[fclass])
+    cur = {}
+
+    def run_main(opts):
+        out = io.StringIO()
+        code, exc = None, None
+        old = sys.argv, os.getcwd()
+        sys.argv = ["norminette"] + opts + [fname]
+        os.chdir(tmp)
+        try:
+            with contextlib.redirect_stdout(out), contextlib.redirect_stderr(io.StringIO()):
+                try:
+                    M.main()
+                except SystemExit as e:
+                    code = e.code
+                except core.EngineGap:
+                    raise
+                except Exception as e:
+                    exc = type(e).__name__
+        finally:
+            sys.argv = old[0]
+            os.chdir(old[1])
+        return parse_any(out.getvalue()), (0 if code in (0, None) else 1), exc
+
+    def body():
+        cur.clear()
+        k = choose("opts", len(FMT_OPTS))
+        base = run_main([])
+        a = run_main(FMT_OPTS[k])
+        cur["case"] = dict(part="cliF", fclass=fclass, opts=FMT_OPTS[k])
+        if a != base:
+            what = "exception" if a[2] or base[2] else ("exit-status" if a[1] != base[1] else ("verdict" if [f[:2] for f in a[0]] != [f[:2] for f in base[0]] else "diagnostics"))
+            col.violation(f"C16:cli-format-options:{what}:{fclass}", f"options {FMT_OPTS[k]} change the {what} of a {fclass} file", cur["case"])
+            cur["viol"] = True
+        return dict(ok=True)
+
+    def on_path(res, status):
+        if status == "gap":
+            col.gap(str(res)[:100])
+        elif status == "ok" and not cur.get("viol") and col.want_witness():
+            col.add_witness(cur["case"], dict(ok=True))
+    try:
+        ex.explore(body, on_path=on_path, max_time=max(1.0, min(ctx.get("chunk_time", 90), ctx["deadline"] - time.time())), path_alarm=30.0)
+    finally:
+        shutil.rmtree(tmp, ignore_errors=True)
+    res = col.finish(limit=60)
+    res["stats"] = ex.stats()
+    return res
+
+
 RTEXT = "#define foo(x) 12\n#define BAR 12 34\n#define baz 5\n\nint\tmain(void)\n{\n\treturn (0);\n}\n"
 
 
@@ -375,7 +495,7 @@ def _diff(a, b):
 def native_cli(argv, cwd):
     import subprocess
     r = subprocess.run(["/venv/bin/python", "-m", "norminette"] + argv, cwd=cwd, capture_output=True, text=True, timeout=60,
-                       env=dict(os.environ, PYTHONPATH="/repo", PYTHONDONTWRITEBYTECODE="1"))
+                       env=dict(os.environ, PYTHONPATH=__import__("symx").REPO, PYTHONDONTWRITEBYTECODE="1"))
     exc = None
     if "Traceback (most recent call last)" in r.stderr:
         exc = r.stderr.strip().splitlines()[-1].split(":")[0]
@@ -411,6 +531,14 @@ def replay(case):
         return dict(digest=dict(ok=not viol), violations=viol)
     import tempfile
     import shutil
+    if case["part"] == "cliF":
+        base = fmt_run_native(case["fclass"], [])
+        a = fmt_run_native(case["fclass"], case["opts"])
+        a, base = (a[0], 0 if a[1] == 0 else 1), (base[0], 0 if base[1] == 0 else 1)
+        if a != base:
+            what = "exit-status" if a[1] != base[1] else ("verdict" if [f[:2] for f in a[0]] != [f[:2] for f in base[0]] else "diagnostics")
+            viol.append([f"C16:cli-format-options:{what}:{case['fclass']}", "options change the result"])
+        return dict(digest=dict(ok=not viol), violations=viol)
     if case["part"] == "cliR":
         tmp = tempfile.mkdtemp(prefix="nverif-")
         try:
